@@ -49,13 +49,18 @@ def CELLC(cid):
     return ('^', int(cid))
 
 
+def GROUP(arg):
+    '''Redundant parentheses around a sub-expression: "( ... )".'''
+    return ('g', arg)
+
+
 def expr_leaves(expr):
     if expr[0] == 's':
         yield expr
     elif expr[0] in ('*', ':'):
         for sub in expr[1:]:
             yield from expr_leaves(sub)
-    elif expr[0] == '#':
+    elif expr[0] in ('#', 'g'):
         yield from expr_leaves(expr[1])
 
 
@@ -65,14 +70,14 @@ def expr_cellrefs(expr):
     elif expr[0] in ('*', ':'):
         for sub in expr[1:]:
             yield from expr_cellrefs(sub)
-    elif expr[0] == '#':
+    elif expr[0] in ('#', 'g'):
         yield from expr_cellrefs(expr[1])
 
 
 def expr_size(expr):
     if expr[0] in ('s', '^'):
         return 1
-    if expr[0] == '#':
+    if expr[0] in ('#', 'g'):
         return expr_size(expr[1])
     return sum(expr_size(sub) for sub in expr[1:])
 
@@ -94,6 +99,10 @@ def render_expr(expr, style=None, top=True):
         inner = render_expr(expr[1], style, top=True)
         return ('#' + style.get('hash_gap', '') + '(' + style.get('in_par', '')
                 + inner + style.get('in_par', '') + ')')
+    if kind == 'g':
+        inner = render_expr(expr[1], style, top=True)
+        return ('(' + style.get('in_par', '') + inner
+                + style.get('in_par', '') + ')')
     if kind == '*':
         parts = []
         for sub in expr[1:]:
@@ -518,6 +527,8 @@ class Reference:
             return res
         if kind == '#':
             return ~self.eval_expr(expr[1], pts, frame_pts)
+        if kind == 'g':
+            return self.eval_expr(expr[1], pts, frame_pts)
         if kind == '^':
             return ~self.region(self.cells[expr[1]], frame_pts)
         raise ValueError(expr)
